@@ -49,6 +49,7 @@ static Plan gen_sorter(const std::string &prop, const std::string &tier, uint64_
 	p.seti("late", r.chance(2, 3) ? 1 : 0);
 	p.seti("abandon", r.chance(1, 8) ? (long long)r.below(10) : -1);
 	p.seti("tmpsub", r.below(3));	// nesting depth of the temp dir
+	p.seti("tmpshape", r.chance(1, 2) ? 0 : 1 + r.below(4));	// 0 plain absolute, 1 trailing slash, 2 relative to cwd, 3 long component, 4 "./" prefix relative
 	return p;
 }
 
@@ -70,6 +71,15 @@ static RunResult exec_sorter(const Plan &p)
 	s.tmpdir = dir + "/spill";
 	mkdir(s.tmpdir.c_str(), 0700);
 	for (long long i = 0; i < p.geti("tmpsub", 0); i++) { s.tmpdir += "/d" + std::to_string(i); mkdir(s.tmpdir.c_str(), 0700); }
+	std::string real_tmpdir = s.tmpdir;	// absolute name, for listing the directory afterwards
+	int shape = (int)p.geti("tmpshape", 0);
+	if (shape == 3) { s.tmpdir += "/" + std::string(180, 'L'); mkdir(s.tmpdir.c_str(), 0700); real_tmpdir = s.tmpdir; }
+	if (shape == 1) s.tmpdir += "/";
+	if (shape == 2 || shape == 4) {
+		if (chdir(dir.c_str()) != 0) { res.fail("INFRA", "chdir", "cannot enter scratch dir"); return res; }
+		s.tmpdir = std::string(shape == 4 ? "./" : "") + real_tmpdir.substr(dir.size() + 1);
+	}
+	res.probes[std::string("tmpdir-shape-") + std::to_string(shape)]++;
 	s.max_mem = (size_t)p.geti("maxmem", 0);
 	s.finish = (int)(p.geti("finish", 0) % 2);
 	s.late_calls = p.geti("late", 0) != 0;
@@ -122,7 +132,8 @@ static RunResult exec_sorter(const Plan &p)
 		if (t.compare(0, s.tmpdir.size() + 1, s.tmpdir + "/") != 0 || t.find('/', s.tmpdir.size() + 1) != std::string::npos)
 			res.fail("MODEL", "SORTER-spill-outside-tmpdir", "spill file template '" + t + "' is not directly inside the configured directory '" + s.tmpdir + "'");
 	}
-	if (dir_entries(s.tmpdir) != 0) res.fail("MODEL", "SORTER-tmpfile-left", "temporary directory not empty after the sorter was destroyed");
+	if (shape == 2 || shape == 4) (void)!chdir("/");
+	if (dir_entries(real_tmpdir) != 0) res.fail("MODEL", "SORTER-tmpfile-left", "temporary directory not empty after the sorter was destroyed");
 	if (lg.mkstemps != lg.unlinks) res.fail("MODEL", "SORTER-tmpfile-not-unlinked", std::to_string(lg.mkstemps) + " spill files created, " + std::to_string(lg.unlinks) + " unlinked");
 	if (out.chunks_spilled < out.limit_crossings)
 		res.fail("MODEL", "SORTER-too-few-chunks", "buffered keys+values reached the memory limit " + std::to_string(out.limit_crossings) + " times but only " + std::to_string(out.chunks_spilled) + " spill files were created");
